@@ -592,7 +592,7 @@ class SourceWeightedPDFRatio(
         # vanishing numerators as well. Avoid the 0/0 division, which would
         # turn the log-likelihood ratio of the entire analysis into NaN although
         # such a dataset gets zero signal events assigned (f_j == 0).
-        if A > 0:
+        if A != 0:
             R_i /= A
 
         self._cache_R_ik = R_ik
@@ -682,7 +682,7 @@ class SourceWeightedPDFRatio(
                     a_k[k] * R_ik_grad[src_mask]
 
         R_i_grad += src_sum_i
-        if A > 0:
+        if A != 0:
             R_i_grad /= A
 
         return R_i_grad
